@@ -1,4 +1,4 @@
-SPECIFICATION Spec
+SPECIFICATION RSpec
 CONSTANTS
   Streams <- MCStreams
   Trailing = 3
@@ -10,5 +10,5 @@ CONSTANTS
   DevPeekWholeBuffer = FALSE
   DevErrorBeforeData = FALSE
   DevPeekAtStreamEnd = FALSE
-INVARIANTS TypeOK C05_ExactEnd C02_AllOutput C11_NoWait C11_DataFirst C15_SameError C03_PrefixOnly
+INVARIANTS Refines
 CHECK_DEADLOCK FALSE
